@@ -68,6 +68,9 @@ pub const OPTS: &[Opt] = &[
     Opt { name: "tui-privacy-max-ttl", section: "tui", kind: Kind::Num, values: &["0", "1", "3", "20"], default: "" },
     Opt { name: "tui-custom-columns", section: "tui", kind: Kind::Str, values: &["holsravbwdt", "hosr", "holsravbwdtjgxiSPQTCNfFBDKM", "ho", "hlsravbwdt", "h", "oNKM"], default: "holsravbwdt" },
     Opt { name: "tui-timezone", section: "tui", kind: Kind::Str, values: &["UTC", "Europe/Berlin", "Asia/Tokyo"], default: "" },
+    Opt { name: "tui-locale", section: "tui", kind: Kind::Str, values: &["en", "fr", "de", "zh", "es"], default: "" },
+    Opt { name: "source-address", section: "strategy", kind: Kind::Str, values: &["192.0.2.1", "192.0.2.77", "2001:db8:1::1"], default: "" },
+    Opt { name: "interface", section: "strategy", kind: Kind::Str, values: &["eth0", "sim0"], default: "" },
 ];
 
 /// Where an option is given in one generated configuration.
@@ -278,6 +281,9 @@ fn clear(c: &mut GenConfig, name: &str) {
 fn repair(c: &mut GenConfig, tui_bias: bool) {
     if tui_bias {
         clear(c, "mode");
+    }
+    if effective(c, "source-address").is_some() && effective(c, "interface").is_some() {
+        clear(c, "interface");
     }
     let proto = effective(c, "protocol").unwrap_or("icmp").to_string();
     let strat = effective(c, "multipath-strategy").unwrap_or("classic").to_string();
